@@ -437,6 +437,12 @@ def judge(prop, case, log):
                 V("child-left-behind@" + fk, "start failed with %d but a child process is left (%s)" % (r, s1.get("kids")))
             if pops and "hang" not in pops[0] and pops[0]["ret"] != EINVAL:
                 V("pid-after-failed-start@" + fk, "reproc_pid returned %d after a failed start" % pops[0]["ret"])
+            if not hang and fin and (fin.get("double_close") or fin.get("foreign_close")):
+                # "left not started so it can be started again or destroyed": a descriptor number that the failed start has
+                # already closed is still in the handle, and the destroy / second start closes it again
+                V("stale-descriptor-in-handle-after-failed-start@" + fk,
+                  "after the failed start a later call on the handle closed %d descriptor(s) a second time / %d it does not own"
+                  % (fin.get("double_close", 0), fin.get("foreign_close", 0)))
             if len(sops) > 1 and m.get("tail", 0) == 0:
                 obs["restarts_checked"] += 1
                 s2 = sops[1]
